@@ -4,7 +4,7 @@ Recursion: an on-disk history is written DIRECTLY with pickle (never through the
 (RecordLog, False, x_i), item file n is missing | empty | cut off | the stop marker, later files hold stale material.  Then the
 real Recursion.__iter__ runs with caching enabled and is compared with the sequence x_0, x_1, ... the recursion yields from
 scratch.  cache.function: a cache file with a longer stale entry, two consecutive calls.  enable/disable: nesting."""
-import io, itertools, os, pickle, shutil, sys, tempfile
+import contextlib, io, itertools, os, pickle, shutil, sys, tempfile
 
 K_ITEMS = 4
 MISSING, EMPTY, TRUNC_UNPICKLING, TRUNC_INDEX, STOPMARK, STALE_VALID = 0, 1, 2, 3, 4, 5
@@ -13,6 +13,38 @@ SCRATCH = os.path.join(os.path.expanduser('~'), '.cache', 'verif-scratch')
 
 class GenError(Exception):
     pass
+
+
+INDEX_MARK = b'cut-off entry on which pickle.load raises IndexError'
+
+
+class _PickleProxy:
+    """The real pickle module, except that loading a file that holds INDEX_MARK raises IndexError: the C unpickler of this
+    Python does not raise IndexError on any cut-off stream we could construct, but the code under test (and the contract's
+    external) allows for it (the pure-Python unpickler does).  Everything else is the real pickle."""
+
+    def __getattr__(self, name):
+        return getattr(pickle, name)
+
+    def load(self, f, *a, **k):
+        pos = f.tell()
+        head = f.read(len(INDEX_MARK))
+        f.seek(pos)
+        if head == INDEX_MARK:
+            f.read()
+            raise IndexError('pop from empty list')
+        return pickle.load(f, *a, **k)
+
+
+@contextlib.contextmanager
+def _index_error_injection():
+    from nutils import cache
+    saved = cache.pickle
+    cache.pickle = _PickleProxy()
+    try:
+        yield
+    finally:
+        cache.pickle = saved
 
 
 def X(p):
@@ -78,7 +110,7 @@ def recursion_scenario(length, n, T, tail, gen_raises, stale=None, verbose=False
             full = pickle.dumps((treelog.RecordLog(), False, ('stale', i)))
             if kind == MISSING:
                 return
-            data = {EMPTY: b'', TRUNC_UNPICKLING: full[:len(full) // 2], TRUNC_INDEX: b'bogus', STOPMARK: pickle.dumps((treelog.RecordLog(), True, None)), STALE_VALID: full}[kind]
+            data = {EMPTY: b'', TRUNC_UNPICKLING: full[:len(full) // 2], TRUNC_INDEX: INDEX_MARK, STOPMARK: pickle.dumps((treelog.RecordLog(), True, None)), STALE_VALID: full}[kind]
             open(path, 'wb').write(data)
         for i in range(n):
             open(os.path.join(d, '%04d' % i), 'wb').write(pickle.dumps((treelog.RecordLog(), False, X(i))))
@@ -86,7 +118,7 @@ def recursion_scenario(length, n, T, tail, gen_raises, stale=None, verbose=False
         for i in range(n + 1, K_ITEMS + 2):
             write(i, stale.get(i, STALE_VALID))
         got, exc = [], None
-        with cache.enable(root):
+        with cache.enable(root), _index_error_injection():
             try:
                 it = iter(obj)
                 for _ in range(K_ITEMS):
@@ -199,7 +231,7 @@ def run_function_twice(scenario, clause):
     root = _mkdtemp()
     bad = []
     try:
-        for sc in ([scenario] if scenario else []) + ['over-longer-old-format-entry', 'over-longer-garbage', 'into-empty-file', 'hit', 'hit-old']:
+        for sc in ([scenario] if scenario else []) + ['over-longer-old-format-entry', 'over-longer-garbage', 'over-index-error-entry', 'into-empty-file', 'hit', 'hit-old']:
             del calls[:]
             shutil.rmtree(root, ignore_errors=True)
             os.makedirs(root)
@@ -213,12 +245,12 @@ def run_function_twice(scenario, clause):
             path = os.path.join(root, names[0])
             pad = 'stale' * 200
             rl = treelog.RecordLog()
-            stale = {'over-longer-old-format-entry': pickle.dumps((rl, True, pad)), 'over-longer-garbage': b'\x00garbage' * 100,
+            stale = {'over-longer-old-format-entry': pickle.dumps((rl, True, pad)), 'over-longer-garbage': b'\x00garbage' * 100, 'over-index-error-entry': INDEX_MARK + b'x' * 500,
                      'into-empty-file': b'', 'hit': pickle.dumps((('stored', pad), rl)), 'hit-old': pickle.dumps((rl, False, ('stored', pad)))}.get(sc, b'')
             open(path, 'wb').write(stale)
             del calls[:]
             res, excs, logs = [], [], []
-            with cache.enable(root):
+            with cache.enable(root), _index_error_injection():
                 for k in range(2):
                     rec_log = treelog.RecordLog(simplify=False)
                     logs.append(rec_log)
